@@ -21,6 +21,7 @@ import (
 	"sort"
 	"strconv"
 	"sync"
+	"unicode/utf8"
 
 	"github.com/cloudwego/thriftgo/internal/utils"
 )
@@ -221,6 +222,9 @@ func (self *FieldMask) marshalRec(buf *[]byte) error {
 		sort.Stable(fds)
 		for _, v := range fds {
 			// NOTICE: strconv.Quote() writes Go escapes (\a, \x00...) which aren't JSON
+			if !utf8.ValidString(v.id) {
+				return errors.New("string key " + strconv.Quote(v.id) + " isn't valid UTF-8")
+			}
 			path, err := json.Marshal(v.id)
 			if err != nil {
 				return err
